@@ -409,6 +409,7 @@ def content(formats, bucket):
         out = ExposureOutputs(output_folder=PREFIX + "/out", save_data_to_file=[{f"detector.{bucket}.array": list(formats)}])
         out._current_output_folder = pathlib.Path(PREFIX + "/out/run")
         out.save_to_file(processor=proc)
+        held = getattr(det, bucket)._array  # what the detector holds after the files were written (re-bound or mutated, both show)
     lab = f"{bucket}/" + "+".join(formats)
     vx.prove(f"C19/content/every_format_written_once/{lab}", [g[0] for g in got] == list(formats))
     ok = []
@@ -420,7 +421,8 @@ def content(formats, bucket):
             # 8-bit preview of the full ADC range (lossy by design; one count of slack for the float rounding of 255 / (2^bits - 1))
             ok += [str(data.dtype) == "uint8"] + [((a - 1) * (2**bits - 1) <= 255 * b) & (255 * b <= (a + 1) * (2**bits - 1)) & (a >= 0) & (a <= 255) for a, b in zip(elems, snap.elems())]
     vx.prove(f"C19/content/writer_receives_bucket/{lab}", vx.all_of(ok))
-    vx.prove(f"C19/content/bucket_untouched/{lab}", vx.all_of([a == b for a, b in zip(src.elems(), snap.elems())]))
+    vx.prove(f"C19/content/bucket_untouched/{lab}", (held is not None) and tuple(held.shape) == (2, 2) and str(held.dtype) == str(snap.dtype)
+             and vx.all_of([a == b for a, b in zip(symnp.asarray(held).elems(), snap.elems())]))
 
 
 def _replay_content(kwargs, model):
